@@ -45,4 +45,33 @@ CHECKS = {
                 "non-trivial = a cancel() call was issued and a preemption occurred",
         "assumptions": ["delegate executor, callable outcomes, policy answers and the clock are environment"],
     },
+    "C13": {
+        "modules": ["p_c13"],
+        "gen_lemmas": [],
+        "rule": "seeded scenarios: 1-3 MapFuture/FlatMapFuture objects built directly over 2-5 environment futures (shared delegates "
+                "allowed; delegates already done, finishing later with value/exception from 1-2 environment threads, cancelled, or never), "
+                "fn/error_fn answers scripted (return, raise new, re-raise same, return a future in any state, return a non-future), "
+                "done-callbacks before/after completion, 0-2 cancel() calls; x {random, sticky, PCT} schedules; each history replayed on "
+                "Model/MapFut.v; monitor = the sequential law (outcome with exception identity, call counts, arguments); "
+                "non-trivial = a user function ran and a preemption occurred",
+        "assumptions": ["delegate futures are plain stdlib futures driven by the environment; chains longer than one level are covered by the pure law (vchain_compose) and the whole-stack differential of C01"],
+    },
+    "C14": {
+        "modules": ["p_c14"],
+        "gen_lemmas": ["or_update_spec", "and_update_spec"],
+        "rule": "seeded scenarios: f_or/f_and over 2-5 input positions drawn from 2-5 environment futures (duplicates, inputs already done, "
+                "truthy/falsy values of several types, exceptions, cancelled, never finishing), 1-3 environment threads completing inputs, "
+                "0-2 cancels of the output; x {random, sticky, PCT} schedules; each history replayed on Model/Comb.v; monitor = output equals "
+                "the fold over SOME linearisation of the completions consistent with real-time order, and no input stays pending once the "
+                "output is done; non-trivial = completions from >= 2 threads with a preemption",
+        "assumptions": ["inputs are plain stdlib futures driven by the environment; inputs that were already done at call time count as finishing at registration, in argument order"],
+    },
+    "C15": {
+        "modules": ["p_c15"],
+        "gen_lemmas": ["zip_update_spec", "tuple_classes_20"],
+        "rule": "as C14 for f_zip (positions, duplicates, first failure / first cancellation, output cancel fan-out), replayed on Model/Comb.v; "
+                "plus API-level checks of sizes 0/1/2/19/20/21/300/random with shuffled completion order, f_sequence, f_traverse call order "
+                "and fault propagation",
+        "assumptions": ["inputs are plain stdlib futures driven by the environment"],
+    },
 }
